@@ -248,16 +248,104 @@ def cases(tier):
     return uniq
 
 
+# ----------------------------------------------------------------------
+# binary-flux (VARPOW) branch: the two intact single-assembly data sets
+def varpow_cases(tier):
+    out = []
+    for ds in ('single_asm_refl', 'single_asm_vac'):
+        for model in ('distribute', 'pin_only'):
+            for total in (None, 6.001e6):
+                for scaling in (None, 0.5):
+                    for step in (None, 0.2):
+                        for bounds in ('as-is', 'shifted', 'whole'):
+                            if tier == 'quick' and ((scaling and not total) or (step and bounds == 'whole')
+                                                    or (model == 'pin_only' and bounds == 'shifted')):
+                                continue
+                            out.append(dict(dataset=ds, power_model=model, total=total, scaling=scaling,
+                                            step_in=step, bounds=bounds))
+    return out
+
+
+def run_varpow(c):
+    import os
+    import re
+    import shutil
+    import tempfile
+    import dassh
+    from .. import REPO
+    r = new_result()
+    V = r['violations']
+    src = os.path.join(REPO, 'tests', 'test_inputs', 'input_single_asm.txt')
+    txt = open(src).read()
+    data = os.path.join(REPO, 'tests', 'test_data')
+    txt = txt.replace('../test_data/single_asm_refl', os.path.join(data, c['dataset']))
+    txt = txt.replace('from_file = sodium_se2anl.csv',
+                      'from_file = ' + os.path.join(REPO, 'tests', 'test_inputs', 'sodium_se2anl.csv'))
+    txt = re.sub(r'axial_plane\s*=.*', '', txt)
+    txt = re.sub(r'\[\[AssemblyTables\]\].*?(?=\n#{10,})', '', txt, flags=re.S)
+    txt = re.sub(r'\[\[Dump\]\].*?(?=\[\[Units\]\])', '', txt, flags=re.S)
+    if c['total'] is None:
+        txt = re.sub(r'total_power\s*=.*', '', txt)
+    else:
+        txt = re.sub(r'total_power\s*=.*', 'total_power = %r' % c['total'], txt)
+    if c['scaling'] is not None:
+        txt = txt.replace('[Power]', '[Power]\n    power_scaling_factor = %r' % c['scaling'])
+    txt = txt.replace('fuel_material      = metal', 'fuel_material      = metal\n        power_model = %s' % c['power_model'])
+    if c['step_in'] is not None:
+        txt = txt.replace('[Setup]', '[Setup]\n    axial_mesh_size = %r' % c['step_in'])
+    if c['bounds'] == 'shifted':
+        txt = txt.replace('z_hi       = 50.0', 'z_hi       = 53.0').replace('z_lo       = 115.0', 'z_lo       = 112.5')
+    elif c['bounds'] == 'whole':
+        txt = re.sub(r'\[\[\[AxialRegion\]\]\].*?(?=\[\[\[FuelModel\]\]\])', '', txt, flags=re.S)
+    d = tempfile.mkdtemp(prefix='vf_vp_')
+    try:
+        ip = os.path.join(d, 'input.txt')
+        with open(ip, 'w') as f:
+            f.write(txt)
+        inp = dassh.DASSH_Input(ip)
+        rx = dassh.Reactor(inp, path=os.path.join(d, 'out'))
+        rx.temperature_sweep()
+        a = rx.assemblies[0]
+        got = float(sum(a._power_delivered.values()))
+        want = float(a.total_power)
+        n = len(rx.z) - 1
+        r['states'] = n + 1
+        r['transitions'] = n
+        r['traces'] = 1
+        scale = max(abs(want), 1e-9)
+        if abs(got - want) > TOL * scale:
+            V.append(violation('delivered-power-varpow', c,
+                               'heat deposited during the sweep differs from Assembly.total_power (ratio %.8f)'
+                               % (got / want), got, want, TOL * scale))
+        if c['total'] is not None:
+            req = c['total'] * (c['scaling'] if c['scaling'] is not None else 1.0)
+            if abs(float(rx.total_power) - req) > TOL * req or abs(want - req) > TOL * req:
+                V.append(violation('core-total-power-varpow', c, 'core / assembly total differs from requested x scaling',
+                                   [float(rx.total_power), want], req, TOL * req))
+        zb = a.power.rod_zbnds
+        zf = a.power.z_finemesh
+        inside = any(min(abs(zf - b)) > 1e-6 for b in zb if 0 < b < 9e4)
+        r['extra'] = {'varpow_bundle_bound_inside_power_cell': int(inside)}
+        r['nontrivial'] = want > 0
+        r['info'] = {'steps': n, 'ratio_minus_1': got / want - 1.0, 'total_power': want}
+        r['outcome'] = 'ok' if not V else 'violation'
+    finally:
+        shutil.rmtree(d, ignore_errors=True)
+    return r
+
+
 def main(run):
     run.rule = ('full product cells x bundle bounds x polynomial order x component subset x step (+ normalisation, '
                 'scaling, assembly count, zero-power cells as listed); non-trivial = non-zero assigned power')
     run.assumptions = ['exact rational integration of the CSV polynomials by the harness',
-                       'binary-flux (VARPOW) power is not exercised here (see DESIGN: only two intact data sets)']
+                       'binary-flux branch: the VARPOW executable and Power object are trusted for the assigned '
+                       'power of the two intact single-assembly data sets; delivered vs assigned is checked']
     cs = cases(run.tier)
     for c in cs:
         c['seed'] = run.seed % 4
     run.check_determinism(run_case, cs[0])
     run.explore('power', cs, run_case, budget_s=300)
+    run.explore('varpow', varpow_cases(run.tier), run_varpow, budget_s=600)
     if not run.extra.get('bundle_bound_inside_power_cell'):
         run.violations.append(dict(violation('vacuous-alphabet', {}, 'no case with a bundle bound inside a power cell'),
                                    part='power'))
@@ -266,7 +354,7 @@ def main(run):
 def replay(body):
     from ..run import guarded
     c = {k: v for k, v in body['scenario'].items() if k not in ('asm',)}
-    r = guarded(run_case, c, 900)
+    r = guarded(run_varpow if body.get('part') == 'varpow' else run_case, c, 900)
     for v in r['violations']:
         print('VIOLATION property=C03 replay=(inline) kind=%s %s observed=%s expected=%s'
               % (v['kind'], v['what'], v.get('observed'), v.get('expected')))
